@@ -258,6 +258,8 @@ def _work(task):
         case = C1.gen_case(rng, row, d + 8, thorough)   # payload length classes from 0x40 on (shorter ones: C01; HMAC images need 64 bytes)
         case["malformed"] = 0
         case["cfg_rt"] = False
+        if case.get("ks", ["none"])[0] == "ks_empty":
+            case["ks"] = ["none", ""]     # key source without data is not visible in the image (C01 known finding): the ROM cannot know
         case["flip_seed"] = rng.getrandbits(32)
         case["flips"] = flips
         try:
@@ -289,8 +291,8 @@ def run(ck):
               "RSA certificate chains come from the repository's test data (depth 1-3, 2048-4096 bit), EC root sets of 1-4 keys P-256 / P-384 with every signing root, with and without ISK / ISK user data",
               "mc56 (Vx) images are not covered (no IVT, documented only as far as mbi_mixin.py goes)")
     prot = [ri for ri, r in enumerate(ROWS) if protected(r[6])]
-    draws = ck.budget(1, 12)
-    flips = ck.budget(1, 4)
+    draws = ck.budget(2, 30)
+    flips = ck.budget(2, 6)
     first_of_shape = {}
     for ri in prot:
         first_of_shape.setdefault((ROWS[ri][5], ROWS[ri][6]), ri)
